@@ -100,11 +100,11 @@ EXCEPTIONS = [
     # ---- lookups --------------------------------------------------------------------------------------------------
     dict(fn="types::SourceMap::lookup_token", what="Overflow:Sub:u32", desc="arg3,Token::get_dst_col(var:Token)", count=1,
          reason="greatest_lower_bound returns a token with (dst_line, dst_col) <= (line, col) lexicographically (C04.R3/R4); under the dominating guard dst_line == line (C07.R4) this gives dst_col <= col",
-         requires=["C04.R3", "C04.R4", "C07.R4"]),
+         requires=["C04.R1", "C04.R2", "C04.R3", "C04.R4", "C07.R4"]),
     dict(fn="types::SourceMapIndex::lookup_token", what="Overflow:Sub:u32", desc="arg2,SourceMapSection::get_offset(*).0", count=1,
-         reason="the section comes from greatest_lower_bound keyed by get_offset with query (line, col): offset <= (line, col) lexicographically, so off_line <= line (C04.R4, C08.R1)", requires=["C04.R4", "C08.R1"]),
+         reason="the section comes from greatest_lower_bound keyed by get_offset with query (line, col): offset <= (line, col) lexicographically, so off_line <= line (C04.R4, C08.R1); sections of a decoded index are sorted by offset and offsets are immutable (C08.R5)", requires=["C04.R4", "C08.R1", "C08.R5"]),
     dict(fn="types::SourceMapIndex::lookup_token", what="Overflow:Sub:u32", desc="arg3,SourceMapSection::get_offset(*).1", count=1,
-         reason="evaluated only on the line == off_line branch (C08.R1), where the lexicographic bound gives off_col <= col", requires=["C04.R4", "C08.R1"]),
+         reason="evaluated only on the line == off_line branch (C08.R1), where the lexicographic bound gives off_col <= col (sections sorted: C08.R5)", requires=["C04.R4", "C08.R1", "C08.R5"]),
     # ---- utils ------------------------------------------------------------------------------------------------------
     dict(fn="utils::split_path", what="index", desc="arg1[Range{start:var:usize,end:some(Iterator::next(var:MatchIndices<*>)).0}]", count=1,
          reason="last_idx is 0 or an earlier match index, idx is a later match index of the same string: both are char boundaries with last_idx <= idx <= len"),
